@@ -17,6 +17,7 @@ use super::code::*;
 //@include prelude/lemmas_c10.rs
 //@include prelude/lemmas_c10_prop.rs
 //@include prelude/lemmas_c10_quantile.rs
+//@include prelude/lemmas_quantile_order.rs
 } // mod spec
 
 pub mod code {
